@@ -16,7 +16,8 @@ LEVEL_TEXT = ('Exploration with a byte-level oracle: generated DAQmx files (1-5 
               'both byte orders, format-changing and digital-line scalers) are decoded by the real reader and every scaler '
               'value is compared with the value laid down at (chunk, buffer, row*width, byte offset/bit) by an independent '
               'encoder; lazy windows (exhaustive for short channels), chunk streams and every truncation point are compared too.')
-LEVEL_NOTE = 'Trusted: vlib/daqmx.py layout (NI DAQmx raw data description); digital lines with multi-byte types only little-endian.'
+LEVEL_NOTE = ('Trusted: vlib/daqmx.py layout (NI DAQmx raw data description). A digital line is bit (offset % 8) of the integer read at byte '
+              'offset // 8 with the declared sample type and the segment byte order (the convention of the code, taken as the definition).')
 TECHNIQUE = 'reference-model monitor (independent DAQmx encoder + byte-level oracle) with truncation fault enumeration'
 RULE = ('random DAQmx files from vlib.daqmx.gen_daqmx; non-trivial = >=2 scalers in the file and >=1 value; distinct = '
         '(digital, widths, buffer lengths, per-channel (raw, scaler types/buffers/offsets), per-segment (endian, nchunks, metadata kind))')
